@@ -44,6 +44,9 @@ void count_print(void);
 #ifndef B
 #define B 6
 #endif
+#ifndef NFLAG
+#define NFLAG 0                   /* 1: qmail-local -n (describe, do not deliver) */
+#endif
 #define MAXL (B + 1)              /* lines */
 #define T_MBOX 1
 #define T_MAILDIR 2
@@ -159,6 +162,7 @@ static void fail_with(int status)
 static void on_event(int type, const char *arg)
 {
   unsigned char o;
+  CHECK(!NFLAG, "C13: -n delivers nothing");
   CHECK(!stopped99, "C13: after exit code 99 all further instructions are ignored");
   CHECK(!forward_called, "C13: forwarding comes after all other instructions");
   CHECK(ndone < nev, "C13: no delivery without an instruction line for it");
@@ -179,6 +183,7 @@ void mailprogram(char *prog) { on_event(T_PROG, prog); }
 void mailforward(char **recips)
 {
   unsigned int i, nexp = stopped99 ? fw_expected : nfw;
+  CHECK(!NFLAG, "C13: -n forwards nothing");
   CHECK(!forward_called, "C13: forwarding happens once");
   forward_called = 1;
   if (!stopped99) CHECK(!refuse && ndone == nev, "C13: forwarding only after all other instructions succeeded");
@@ -200,6 +205,13 @@ void vf__exit(int status)
 {
   unsigned int nexp = stopped99 ? fw_expected : nfw;
   CHECK(slurped, "the control file was read");
+#if NFLAG
+  /* qmail-local(8): -n prints a description instead of delivering; the refusals stay */
+  CHECK(ndone == 0 && !forward_called, "C13: -n delivers nothing");
+  if (status == 0) { CHECK(!refuse, "C13: -n: a file that would be refused is not reported as fine"); WITNESS("dry_run_done"); }
+  else { CHECK(status == 111 && refuse, "C13: -n: the only failure is the refusal of the file (111)"); WITNESS("dry_run_refused"); }
+  PATH_END();
+#endif
   if (stub_failed) {
     CHECK(status == stub_failed, "C13: a failing instruction stops qmail-local with its status");
     if (!forward_called) WITNESS("delivery_failure_prevents_forwarding");
@@ -229,7 +241,7 @@ void vf__exit(int status)
 
 void vmain(void)
 {
-  static char *argv[10];
+  static char *argv[11];
   unsigned int i;
   sym_inputs();
   for (i = 0; i < B; ++i) ASSUME(body[i] != 0);
@@ -237,8 +249,13 @@ void vmain(void)
   ASSUME(fw_outcome == 0 || fw_outcome == 2 || fw_outcome == 3);
   ref_interpret();
   ASSUME(!unspecified);
-  argv[0] = "qmail-local"; argv[1] = "u"; argv[2] = "/h"; argv[3] = "u-x"; argv[4] = "-"; argv[5] = "x";
-  argv[6] = "h"; argv[7] = ""; argv[8] = "./Mailbox"; argv[9] = 0;
-  local_main(9, argv);
+  { unsigned int a = 0;
+    argv[a++] = "qmail-local";
+#if NFLAG
+    argv[a++] = "-n";
+#endif
+    argv[a++] = "u"; argv[a++] = "/h"; argv[a++] = "u-x"; argv[a++] = "-"; argv[a++] = "x";
+    argv[a++] = "h"; argv[a++] = ""; argv[a++] = "./Mailbox"; argv[a] = 0;
+    local_main((int) a, argv); }
   CHECK(0, "main() does not return");
 }
